@@ -57,7 +57,7 @@ func c18kinds(rng *rand.Rand, n int, allowAdds bool) []string {
 	return out
 }
 
-var c18Kinds = []string{"direct", "analytic", "cep", "tumbling", "sliding", "session", "counting", "global", "sliding-long", "tumbling-long"}
+var c18Kinds = []string{"direct", "analytic", "cep", "tumbling", "sliding", "session", "counting", "global", "sliding-long", "tumbling-long", "global-each"}
 
 var c18SQL = map[string]string{
 	"direct":   "SELECT id FROM stream",
@@ -68,6 +68,9 @@ var c18SQL = map[string]string{
 	"session":  "SELECT k, COUNT(*) AS c FROM stream GROUP BY k, SessionWindow('20ms')",
 	"counting": "SELECT COUNT(*) AS c FROM stream GROUP BY CountingWindow(3)",
 	"global":   "SELECT k, COUNT(*) AS c FROM stream GROUP BY k, GLOBAL WINDOW TRIGGER WHEN COUNT(*) >= 3",
+	// fires on every row: with the block strategy, an output buffer of one and a slow sink the window goroutine is parked
+	// in its hand-over whenever Stop arrives
+	"global-each": "SELECT k, COUNT(*) AS c FROM stream GROUP BY k, GLOBAL WINDOW TRIGGER WHEN COUNT(*) >= 1",
 	// windows far longer than the run: whatever waits for a window end must be released by Stop, not by the window
 	"sliding-long":  "SELECT COUNT(*) AS c FROM stream GROUP BY SlidingWindow('60s','30s')",
 	"tumbling-long": "SELECT COUNT(*) AS c FROM stream GROUP BY TumblingWindow('60s')",
@@ -95,7 +98,7 @@ func (c18) Gen(rng *rand.Rand, tier string, idx int) Case {
 			k := idx / 13
 			kind = c18Kinds[k%len(c18Kinds)]
 			if k < len(c18Kinds) {
-				strat = []string{"drop", "expand", "drop", "block", "expand", "drop", "block", "block", "drop", "block"}[k]
+				strat = []string{"drop", "expand", "drop", "block", "expand", "drop", "block", "block", "drop", "block", "block"}[k]
 				if kind == "cep" {
 					syncs = []string{"adds", "plain"} // a re-entrant sink that is handed the matches flushed by Stop
 				}
@@ -385,6 +388,7 @@ func c18free(c Case, kind string, n int, base0 int) ([][]string, string) {
 	var mu sync.Mutex
 	var log [][]string
 	add := func(l ...string) { mu.Lock(); log = append(log, l); mu.Unlock() }
+	half := make(chan struct{}) // closed when half of the rows have been sent: the two Stop calls start
 	var mk func(kind string) func([]map[string]interface{})
 	mk = func(sk string) func([]map[string]interface{}) {
 		return func(res []map[string]interface{}) {
@@ -394,6 +398,16 @@ func c18free(c Case, kind string, n int, base0 int) ([][]string, string) {
 			}
 			add("sink", strconv.Itoa(id))
 			if slowSync {
+				if kind == "global-each" {
+					// once Stop is due the sink holds the consumer for 20 ms: the output buffer fills behind it and the
+					// window goroutine is parked in its hand-over when Stop arrives
+					select {
+					case <-half:
+						time.Sleep(20 * time.Millisecond)
+					default:
+						time.Sleep(700 * time.Microsecond)
+					}
+				}
 				time.Sleep(300 * time.Microsecond)
 			}
 			switch sk {
@@ -425,7 +439,6 @@ func c18free(c Case, kind string, n int, base0 int) ([][]string, string) {
 		}
 		return map[string]interface{}{"id": id, "k": []string{"a", "b"}[id%2], "v": v, "ts": int64(id)}
 	}
-	half := make(chan struct{})
 	var sent int64
 	var wg sync.WaitGroup
 	for p := 0; p < 2; p++ {
@@ -583,13 +596,20 @@ func (c18) Exec(c Case) [][][]string {
 		if why == "" {
 			return [][][]string{out}
 		}
-		// a failure seen free-running counts only if it reproduces 3 of 3 times with the same input
-		for i := 0; i < 2; i++ {
+		// a failure seen free-running counts only if it shows three times with the same input (at most six rounds: what
+		// depends on where Stop finds the goroutines does not show in every round)
+		fails, clean := 1, [][]string(nil)
+		for i := 0; i < 5 && fails < 3; i++ {
 			o2, w2 := c18free(c, c.Ops[0][1], n, base0)
 			if w2 == "" {
-				return [][][]string{append([][]string{{"anomaly-unreproduced", why}}, o2...)}
+				clean = o2
+				continue
 			}
+			fails++
 			out = o2
+		}
+		if fails < 3 {
+			return [][][]string{append([][]string{{"anomaly-unreproduced", why}}, clean...)}
 		}
 		return [][][]string{out}
 	}
